@@ -2,6 +2,7 @@
   Lemmas about the recognisers of intfloat.h (core Lean lists).
 -/
 import Gama.Model.GeoLiterals
+import Gama.Lemmas.GeoGrammar
 namespace Gama.Literals
 
 theorem digit_not_sign {c : Char} (h : isDigit c = true) : c ≠ '+' ∧ c ≠ '-' := by
@@ -130,5 +131,207 @@ theorem isFloat_has_digit (s : List Char) (h : isFloat s = true) : ∃ c ∈ tri
       exact ⟨c, skipSign_sublist _ c hc, hp⟩
     · obtain ⟨c, hc, hp⟩ := takeWhile_ne_nil_mem (by simpa using hd)
       exact ⟨c, skipSign_sublist _ c (dropWhile_mem (skipDot_mem hc)), hp⟩
+
+end Gama.Literals
+
+/-! ### the recognisers against the documented formats (Gama/Model/GeoGrammar.lean) -/
+
+namespace Gama.Literals
+open Gama.Grammar Gama.Grammar.Rx
+
+theorem trim_eq (l : List Char) : trim l = dropTrailing Grammar.isSpace (l.dropWhile Grammar.isSpace) := rfl
+
+theorem skipSign_eq (l : List Char) : skipSign l = skip isSign l := by
+  unfold skipSign
+  split
+  · simp [skip, isSign]
+  · simp [skip, isSign]
+  · rename_i h1 h2
+    cases l with
+    | nil => rfl
+    | cons c t =>
+      have hc : isSign c = false := by
+        cases hs : isSign c with
+        | false => rfl
+        | true =>
+          unfold isSign at hs
+          simp only [Bool.or_eq_true, decide_eq_true_eq] at hs
+          rcases hs with rfl | rfl
+          · exact absurd rfl (h1 t)
+          · exact absurd rfl (h2 t)
+      simp [skip, hc]
+
+/-- `IsInteger` (repaired) accepts exactly `ws* [+-]? D+ ws*` -/
+theorem isIntegerWith_true_grammar (s : List Char) : isIntegerWith true s = true ↔ integerRx.Lang s := by
+  rw [isIntegerWith_true_iff]
+  unfold integerRx
+  rw [trim_lang integerCore ?_ ?_ rfl, ← trim_eq]
+  · unfold integerCore
+    rw [seq_opt_cls, ← skipSign_eq, digits1_lang]
+    · rfl
+    · intro c hc
+      simp [digits1, starts, nullable] at hc
+      exact Grammar.digit_not_sign hc
+  · intro c hc
+    simp [integerCore, opt, digits1, starts, nullable] at hc
+    rcases hc with hc | hc
+    · exact sign_not_space hc
+    · exact digit_not_space hc
+  · intro c hc
+    simp [integerCore, opt, digits1, lasts, nullable] at hc
+    exact digit_not_space hc
+
+/-- `(seq (many isDigit) r)` after a first digit: the scanner's `dropWhile` -/
+theorem tailOk_iff (x : List Char) : tailOk x = true ↔ (opt expPart).Lang x := by
+  rw [opt_lang]
+  unfold expPart
+  cases x with
+  | nil => simp [tailOk]
+  | cons e r =>
+    rw [seq_cls_cons, seq_opt_cls, digits1_lang, ← skipSign_eq]
+    · simp only [tailOk, Bool.and_eq_true, exponentOk]
+      have he : (decide (e = 'e') || decide (e = 'E')) = isExp e := rfl
+      rw [he]
+      constructor
+      · rintro ⟨h1, h2⟩
+        refine Or.inr ⟨h1, ?_⟩
+        cases r with
+        | nil => simp at h2
+        | cons a t =>
+          simp only at h2
+          cases hs : skipSign (a :: t) with
+          | nil => rw [hs] at h2; simp at h2
+          | cons y z => rw [hs] at h2; simp only at h2; exact ⟨by simp, by simpa [List.all_eq_true] using (show (y :: z).all Grammar.isDigit = true from h2)⟩
+      · rintro (h | ⟨h1, hne, hall⟩)
+        · simp at h
+        · refine ⟨h1, ?_⟩
+          cases r with
+          | nil => simp [skipSign] at hne
+          | cons a t =>
+            simp only
+            cases hs : skipSign (a :: t) with
+            | nil => exact absurd hs hne
+            | cons y z => simp only [List.all_eq_true]; rw [hs] at hall; exact hall
+    · intro c hc
+      simp [digits1, starts, nullable] at hc
+      exact Grammar.digit_not_sign hc
+
+end Gama.Literals
+namespace Gama.Literals
+open Gama.Grammar Gama.Grammar.Rx
+
+theorem mantissa_eq (cs : List Char) :
+    mantissa cs = (!(cs.takeWhile Grammar.isDigit).isEmpty || !((skip isDot (cs.dropWhile Grammar.isDigit)).takeWhile Grammar.isDigit).isEmpty,
+                   (skip isDot (cs.dropWhile Grammar.isDigit)).dropWhile Grammar.isDigit) := by
+  unfold mantissa
+  simp only []
+  have e : Grammar.isDigit = isDigit := rfl
+  rw [e]
+  split
+  · rename_i r hr; rw [hr]; simp [skip, isDot]
+  · rename_i h1
+    cases hl : List.dropWhile isDigit cs with
+    | nil => simp [skip]
+    | cons c t =>
+      have : isDot c = false := by
+        cases hd : isDot c with
+        | false => rfl
+        | true => unfold isDot at hd; simp only [decide_eq_true_eq] at hd; subst hd; exact absurd hl (h1 t)
+      simp [skip, this]
+
+theorem R_not_digit : ∀ c, (opt expPart).starts c → Grammar.isDigit c = false := by
+  intro c hc
+  simp [opt, expPart, starts, nullable] at hc
+  exact exp_not_digit hc
+
+theorem R_not_dot : ∀ c, (opt expPart).starts c → isDot c = false := by
+  intro c hc
+  simp [opt, expPart, starts, nullable] at hc
+  exact exp_not_dot hc
+
+theorem mantissa_grammar (cs : List Char) :
+    (seq mantissaRx (opt expPart)).Lang cs ↔ ((mantissa cs).1 = true ∧ (opt expPart).Lang (mantissa cs).2) := by
+  rw [mantissa_eq]
+  unfold mantissaRx digits1
+  rw [seq_alt, seq_assoc, seq_assoc, seq_assoc]
+  cases cs with
+  | nil =>
+    simp only [List.takeWhile, List.dropWhile, skip]
+    constructor
+    · rintro (h | h)
+      · exact absurd h (seq_cls_nil _ _)
+      · exact absurd h (seq_cls_nil _ _)
+    · rintro ⟨h, -⟩; simp at h
+  | cons c t =>
+    rw [seq_cls_cons, seq_cls_cons]
+    by_cases hd : Grammar.isDigit c = true
+    · have hdot : isDot c = false := digit_not_dot hd
+      simp only [hd, hdot, true_and, Bool.false_eq_true, false_and, or_false, List.takeWhile, List.dropWhile,
+        List.isEmpty_cons, Bool.not_false, Bool.true_or]
+      rw [seq_many, seq_opt_group _ _ _ R_not_dot]
+      · cases hx : t.dropWhile Grammar.isDigit with
+        | nil => simp [skip]
+        | cons d0 t2 =>
+          simp only [skip]
+          by_cases hq : isDot d0 = true
+          · simp only [hq, if_true]
+            rw [seq_many _ _ R_not_digit]
+          · have hq' : isDot d0 = false := by simpa using hq
+            have hnd : Grammar.isDigit d0 = false := dropWhile_stop _ _ d0 t2 hx
+            simp only [hq', Bool.false_eq_true, if_false, List.dropWhile, hnd]
+      · intro x hx
+        simp [opt, expPart, starts, nullable] at hx
+        rcases hx with hx | hx
+        · exact dot_not_digit hx
+        · exact exp_not_digit hx
+    · have hd' : Grammar.isDigit c = false := by simpa using hd
+      simp only [hd', Bool.false_eq_true, false_and, false_or, List.takeWhile, List.dropWhile, List.isEmpty_nil,
+        Bool.not_true, Bool.false_or]
+      by_cases hq : isDot c = true
+      · simp only [hq, true_and, skip, if_true]
+        cases t with
+        | nil =>
+          simp only [List.takeWhile, List.isEmpty_nil, Bool.not_true, Bool.false_eq_true, false_and, iff_false]
+          rw [seq_assoc]; exact seq_cls_nil _ _
+        | cons c2 t' =>
+          rw [seq_assoc, seq_cls_cons]
+          by_cases h2 : Grammar.isDigit c2 = true
+          · simp only [h2, true_and, List.takeWhile, List.dropWhile, List.isEmpty_cons, Bool.not_false]
+            rw [seq_many _ _ R_not_digit]
+          · have h2' : Grammar.isDigit c2 = false := by simpa using h2
+            simp [h2', List.takeWhile]
+      · have hq' : isDot c = false := by simpa using hq
+        simp [hq', skip, hd']
+
+/-- `IsFloat` accepts exactly `ws* [+-]? ( D+ (. D*)? | . D+ ) ( [eE] [+-]? D+ )? ws*` -/
+theorem isFloat_grammar (s : List Char) : isFloat s = true ↔ floatRx.Lang s := by
+  unfold floatRx
+  rw [trim_lang floatCore ?_ ?_ rfl, ← trim_eq]
+  · unfold floatCore
+    rw [seq_opt_cls, ← skipSign_eq, mantissa_grammar, ← tailOk_iff]
+    · unfold isFloat
+      cases ht : trim s with
+      | nil =>
+        simp only [skipSign, Bool.false_eq_true, false_iff, not_and]
+        intro h; rw [mantissa_eq] at h; simp [skip] at h
+      | cons a t => simp only [Bool.and_eq_true]; exact And.comm
+    · intro c hc
+      simp [mantissaRx, opt, expPart, digits1, starts, nullable] at hc
+      rcases hc with hc | hc
+      · exact Grammar.digit_not_sign hc
+      · exact dot_not_sign hc
+  · intro c hc
+    simp [floatCore, mantissaRx, expPart, opt, digits1, starts, nullable] at hc
+    rcases hc with hc | hc | hc
+    · exact sign_not_space hc
+    · exact digit_not_space hc
+    · exact dot_not_space hc
+  · intro c hc
+    simp [floatCore, mantissaRx, expPart, opt, digits1, lasts, nullable] at hc
+    rcases hc with hc | (hc | hc) | hc
+    · exact digit_not_space hc
+    · exact digit_not_space hc
+    · exact dot_not_space hc
+    · exact digit_not_space hc
 
 end Gama.Literals
